@@ -1,3 +1,4 @@
+\* quick: 3 concurrent callers (SendCall / SendCallAndWaitReplayCall), acks in any order incl. one duplicate and one negative, one reply (before or after the ack)
 SPECIFICATION Spec
 CONSTANTS
   Callers = {P1, P2, P3}
